@@ -361,7 +361,13 @@ func (s *State) Import(state types.AppState, version string) error {
 		s.Candidates.SetDeletedCandidates(state.DeletedCandidates)
 	}
 
-	s.Candidates.RecalculateStakesV2(uint64(s.height))
+	importHeight := uint64(s.height)
+	if importHeight == 0 {
+		// InitChain creates the state before the chain height is known (height 0): candidates removed
+		// here must be unbonded relative to the initial height, not to 0
+		importHeight = uint64(s.InitialVersion)
+	}
+	s.Candidates.RecalculateStakesV2(importHeight)
 
 	for _, w := range state.Waitlist {
 		value := helpers.StringToBigInt(w.Value)
